@@ -110,6 +110,21 @@ ASSUMPTIONS = [
 ]
 
 EXPLANATION += (
+    "  R19.5, reader side: the pieces of the one split in _read_from_file may "
+    "be unpacked as `k, v = <split>`, with a default for an empty result "
+    "(`<split> or [..]`, a conditional expression) or into a starred name "
+    "(`k, *rest = <split>`); in each form the split must be .split(<the "
+    "writer's separator>, 1) into exactly two plain names - the reader is the "
+    "inverse of `'%s %s\\n'` only if the line is cut at the FIRST occurrence "
+    "of the writer's separator and nowhere else.  `.split()` / "
+    "`.split(None, ..)` (any run of blanks) and pieces put together again "
+    "after a split on blank runs are violations: two consecutive spaces or a "
+    "tab inside an output path would be collapsed and the analysis would "
+    "open a path no build step declared.  Cutting at every writer separator "
+    "into a starred name (joined again later) is not decided: analysis "
+    "error.")
+
+EXPLANATION += (
     "  R19.8 (rules/c19_early_exit.py) decides what may count towards "
     "setup_build's early exit: the plan loop stops writing statements once a "
     "local set covers the requested files (the runner attribute filled from "
@@ -2033,10 +2048,21 @@ def r19_5(ctx):
             and c.func.attr in ("split", "rsplit", "partition", "rpartition")]
   sp = _one(splits, "split call in _read_from_file")
   st = lmod.enclosing_stmt(sp)
-  if not (isinstance(st, ast.Assign) and st.value is sp and len(st.targets) == 1
+  # the pieces are unpacked into names: `k, v = <split>`; a starred name
+  # (`k, *rest = <split>`) and a default for an empty result (`<split> or
+  # [""]`, `<split> if line else [..]`) are still "the pieces of that split"
+  val = st.value if isinstance(st, ast.Assign) else None
+  if isinstance(val, ast.BoolOp) and isinstance(val.op, ast.Or) and val.values[0] is sp:
+    val = sp
+  elif isinstance(val, ast.IfExp) and sp in (val.body, val.orelse):
+    val = sp
+  if not (isinstance(st, ast.Assign) and val is sp and len(st.targets) == 1
           and isinstance(st.targets[0], ast.Tuple)
-          and all(isinstance(e, ast.Name) for e in st.targets[0].elts)):
+          and all(isinstance(e, ast.Name) or
+                  (isinstance(e, ast.Starred) and isinstance(e.value, ast.Name))
+                  for e in st.targets[0].elts)):
     raise AnalysisError("_read_from_file: split result is not unpacked into names")
+  starred = any(isinstance(e, ast.Starred) for e in st.targets[0].elts)
   names = ["sep", "maxsplit"]
   bound = dict(zip(names, sp.args))
   for k in sp.keywords:
@@ -2051,13 +2077,31 @@ def r19_5(ctx):
             f"the reader uses .{sp.func.attr}({sep!r}, ..) but write_imports "
             f"separates key and value with {wf['sep']!r}",
             {"reader": sep, "writer": wf["sep"], "method": sp.func.attr})
-  ctx.check(sp.func.attr == "split" and maxsplit == 1
-            and len(st.targets[0].elts) == 2,
+  if starred and sp.func.attr == "split" and sep == wf["sep"] and maxsplit == -1:
+    # cut at every separator of the writer and (presumably) joined again with
+    # it: the identity on well-formed lines if the join uses the same text
+    raise AnalysisError(
+        "_read_from_file: the line is split at every separator into a starred "
+        "name; whether the pieces are joined again unchanged is not decided")
+  once = sp.func.attr == "split" and maxsplit == 1 \
+      and len(st.targets[0].elts) == 2 and not starred
+  ctx.check(once,
             "_read_from_file:splits-once", LOADER, sp.lineno,
-            f"maxsplit is {maxsplit}: the value (an output path) may contain "
+            f"maxsplit is {maxsplit}"
+            + (" and the pieces are collected with a starred name" if starred else "")
+            + ": the value (an output path) may contain "
             "the separator and must stay in one piece, the key is everything "
-            "before the first separator",
-            {"maxsplit": maxsplit, "targets": len(st.targets[0].elts)})
+            "before the first separator (a value that is cut into pieces and "
+            "put together again is only the same text if every separator was "
+            "exactly the writer's)",
+            {"maxsplit": maxsplit, "targets": len(st.targets[0].elts),
+             "starred": starred})
+  if not once:
+    # which piece goes where is only defined for a two-piece split
+    ctx.bad("_read_from_file:key-first", LOADER, sp.lineno,
+            "the item cannot be (piece 0, piece 1) of the line: the line is "
+            "not split into exactly two pieces", {"pieces": None})
+    return
   # order: first piece is the key of the (short_path, path) item
   apps = [c for c in calls_in(fn) if isinstance(c.func, ast.Attribute)
           and c.func.attr == "append" and len(c.args) == 1
@@ -2620,6 +2664,27 @@ VARIANTS = [
        "      for item in sorted(imports_map.items()):", "silent"),
     _v("twin-reader-keyword-maxsplit", "R19.5", 'line.split(" ", 1)',
        'line.split(" ", maxsplit=1)', "silent", file=LOADER),
+    {"name": "seeded-C19-r4m2", "rule": "R19.5",
+     "patch": "seeded/C19-r4m2/patch.diff", "expect": "fire"},
+    _v("reader-splits-on-any-blank-run-once", "R19.5", 'line.split(" ", 1)',
+       'line.split(None, 1)', file=LOADER),
+    _v("reader-starred-rest-of-blank-runs-rejoined", "R19.5",
+       '          short_path, path = line.split(" ", 1)\n',
+       '          short_path, *rest = line.split()\n'
+       '          path = " ".join(rest)\n', file=LOADER),
+    _v("reader-starred-rest-rejoined-with-writer-separator-undecided", "R19.5",
+       '          short_path, path = line.split(" ", 1)\n',
+       '          short_path, *rest = line.split(" ")\n'
+       '          path = " ".join(rest)\n', "error", file=LOADER),
+    _v("reader-splits-or-default-without-separator", "R19.5",
+       '          short_path, path = line.split(" ", 1)\n',
+       '          short_path, path = line.split(maxsplit=1) or ["", ""]\n', file=LOADER),
+    _v("twin-reader-split-or-default", "R19.5",
+       '          short_path, path = line.split(" ", 1)\n',
+       '          short_path, path = line.split(" ", 1) or ["", ""]\n', "silent",
+       file=LOADER),
+    _v("twin-reader-keyword-sep", "R19.5", 'line.split(" ", 1)',
+       'line.split(sep=" ", maxsplit=1)', "silent", file=LOADER),
     # R19.6
     _v("imports-variable-renamed-in-build-line-only", "R19.6",
        "'  imports = {imports}\\n'", "'  imports_info = {imports}\\n'"),
